@@ -211,6 +211,8 @@ template <class PP> struct PPCmds {
     }
     if (c == "pp.copy") { std::string n = vm.next(); PP &s = get(vm.next()); reg[n].reset(new PP(s)); return true; }
     if (c == "pp.assign") { std::string n = vm.next(); PP &s = get(vm.next()); get(n) = s; return true; }
+    if (c == "pp.moveassign") { std::string n = vm.next(); PP &s = get(vm.next()); get(n) = PP(s); return true; }          // assignment from an rvalue
+    if (c == "pp.assignderiv") { std::string n = vm.next(); PP &s = get(vm.next()); int k = vm.nextInt(); get(n) = s.derivative(k); return true; }
     if (c == "pp.selfassign") { PP &s = get(vm.next()); PP *p = &s; s = *p; return true; }
     if (c == "pp.destroy") { reg.erase(vm.next()); return true; }
     if (c == "pp.eval" || c == "pp.evalE") {
@@ -449,6 +451,7 @@ template <class S> struct SplineCmds {
     }
     if (c == "sp.copy") { std::string n = vm.next(); S &s = get(vm.next()); reg[n].reset(new S(s)); return true; }
     if (c == "sp.assign") { std::string n = vm.next(); S &s = get(vm.next()); get(n) = s; return true; }
+    if (c == "sp.moveassign") { std::string n = vm.next(); S &s = get(vm.next()); get(n) = S(s); return true; }
     if (c == "sp.selfassign") { S &s = get(vm.next()); S *p = &s; s = *p; return true; }
     if (c == "sp.destroy") { reg.erase(vm.next()); return true; }
     if (c == "sp.coeffs") {
